@@ -2,13 +2,14 @@
 """Run the checks against seeded changes: for each /verif/seeded/<ID>-m<k> make a scratch worktree of /repo HEAD outside
 /repo and /verif, apply the patch, run ./check <ID> (or the properties given with --props) with VERIF_REPO pointing at it,
 remove the worktree.  Prints one line per (mutant, property): exit code and the first VIOLATION line."""
-import glob, json, os, subprocess, sys, tempfile, shutil
+import glob, json, os, subprocess, sys, tempfile, shutil, threading
+WT_LOCK = threading.Lock()
 from concurrent.futures import ThreadPoolExecutor
 V = os.path.dirname(os.path.dirname(os.path.abspath(__file__)))
 args = [a for a in sys.argv[1:] if not a.startswith('--')]
 props_opt = [a.split('=', 1)[1].split(',') for a in sys.argv[1:] if a.startswith('--props=')]
 extra = [a for a in sys.argv[1:] if a in ('--no-bounded', '--no-deductive')]
-names = args or sorted(os.path.basename(d) for d in glob.glob(V + '/seeded/C*-m*'))
+names = args or sorted(os.path.basename(d) for d in glob.glob(V + '/seeded/C*-*'))
 
 
 def sh(cmd, **kw):
@@ -20,7 +21,8 @@ def one(name):
     os.rmdir(wt)
     out = []
     try:
-        r = sh('git -C /repo worktree add --detach %s HEAD -q && cp /repo/petl/version.py %s/petl/' % (wt, wt))
+        with WT_LOCK:
+            r = sh('git -C /repo worktree add --detach %s HEAD -q && cp /repo/petl/version.py %s/petl/' % (wt, wt))
         patch = '%s/seeded/%s/patch.diff' % (V, name)
         r = sh('git apply %s || git apply -C1 --recount %s || patch -p1 -F3 < %s' % (patch, patch, patch), cwd=wt)
         if r.returncode != 0:
@@ -32,7 +34,8 @@ def one(name):
             viol = [l for l in r.stdout.split('\n') if l.startswith('VIOLATION') or l.startswith('UNDECIDED') or l.startswith('CHECKER')]
             out.append((name, p, 'exit=%d' % r.returncode, (viol[0][:230] if viol else r.stdout.strip().split('\n')[-1][:200])))
     finally:
-        sh('git -C /repo worktree remove --force %s' % wt)
+        with WT_LOCK:
+            sh('git -C /repo worktree remove --force %s' % wt)
         shutil.rmtree(wt, ignore_errors=True)
     return out
 
